@@ -1064,6 +1064,8 @@ def check_c13(tier, replay):
     vlib.write_evidence(prop, tier, "fault_enumeration", cover, assumptions, time.time() - t0,
                         len(summ["violations"]))
     known_hits = [dict(k2, **known[k2["key"]]) for k2 in summ["known"] if k2["key"] in known]
+    if summ["counters"].get("harness_case_errors", 0) > max(3, len(cases) // 50):
+        raise ToolError("too many cases could not be set up: %s" % summ["counters"])
     keys = sorted({v.get("detail", {}).get("key", "?") for v in summ["violations"]})
     if keys:
         log("[C13] distinct failing (crash point, class): %s" % " ".join(keys))
@@ -1116,7 +1118,7 @@ def check_c11(tier, replay):
     # one case per (acl, trust phase, endpoint, credential)
     uniq = {}
     for c in cases:
-        k = (c["acl"], len(c["trusted"]), tuple(c["ep"]), c["cred"])
+        k = (c["acl"], len(c["trusted"]), c.get("revokedBy", "-"), tuple(c["ep"]), c["cred"])
         uniq[k] = c
     cases = [uniq[k] for k in sorted(uniq)]
     if not cases:
@@ -1165,3 +1167,62 @@ def check_c11(tier, replay):
                         len(summ["violations"]))
     known_hits = [dict(k2, **known[k2["key"]]) for k2 in summ["known"] if k2["key"] in known]
     return vlib.finish(prop, summ["violations"], known_hits)
+
+
+C18_ENABLED = ["CreateSecret", "UpdateSecret", "DeleteSecret", "MoveSecret", "Archive", "CreateFolder",
+               "DeleteFolder", "RenameFolder", "SetDescription", "SetFlags"]
+
+
+@register("C18")
+def check_c18(tier, replay):
+    rule = ("Behaviours of Account.tla (several folders, flags, descriptions, moves, archive, deletes) from the "
+            "transition tour are replayed on LocalAccount on the file-system (archive v2) and sqlite (archive v3) "
+            "backends; at the end of selected behaviours the account is exported, imported into empty storage and "
+            "signed in with the same password: folders, names, flags, descriptions and decrypted secrets must "
+            "equal the original. Then every single-entry mutation of the archive is imported into a jail "
+            "directory: one content byte of each entry, one stored checksum in the manifest, extra entries named "
+            "../x, ../../x, a/../../x, ..\\\\x, an absolute path and a drive-prefixed path, and a duplicate entry with "
+            "other content; a mutant must be rejected leaving no account (or restore an identical account) and "
+            "no file may appear outside the import target. Non-trivial = behaviour with a state-changing step.")
+    every = 6 if tier == "quick" else 2
+    mode = "quick" if tier == "quick" else "thorough"
+
+    def extra(i):
+        return {"archive": mode if i % every == 0 else "none"}
+    if tier == "quick":
+        inst = [{"consts": base_consts(MetaFolders=["f1"], Enabled=C18_ENABLED), "max_len": 30}]
+    else:
+        inst = [{"consts": base_consts(MetaFolders=["f1", "d"], Enabled=C18_ENABLED), "max_len": 40,
+                 "sample_paths": 200},
+                {"consts": base_consts(Values=["v3", "v5", "v6"], MetaFolders=["f1"], Enabled=C18_ENABLED),
+                 "max_len": 40, "sample_paths": 100}]
+    return account_check("C18", tier, replay, inst, rule, ACCOUNT_ASSUME, path_extra=extra)
+
+
+C19_ENABLED = ["CreateSecret", "UpdateSecret", "DeleteSecret", "MoveSecret", "Archive", "CreateFolder",
+               "DeleteFolder", "RenameFolder", "SetDescription", "SetFlags", "Compact"]
+
+
+@register("C19")
+def check_c19(tier, replay):
+    rule = ("Behaviours of Account.tla (folders with flags and descriptions, deleted folders, moves, archive, "
+            "compaction) from the transition tour are replayed on LocalAccount on both backends in lock-step "
+            "(the same history must give the same observable account on either backend: BackendsAgree); at the "
+            "end of selected behaviours the file-system account is copied and upgraded: first a dry run, which "
+            "must leave every file of the source directory byte-identical, then the real upgrade; the upgraded "
+            "sqlite account must sign in with the same password, report the same sync status for the identity, "
+            "account, device, file and every folder log (event-for-event: same roots and lengths), the same "
+            "trusted devices and the same decrypted folders. Non-trivial = behaviour with a state-changing step.")
+    every = 4 if tier == "quick" else 1
+
+    def extra(i):
+        return {"upgrade": "yes" if i % every == 0 else "none"}
+    if tier == "quick":
+        inst = [{"consts": base_consts(MetaFolders=["f1"], Enabled=C19_ENABLED), "max_len": 30}]
+    else:
+        inst = [{"consts": base_consts(MetaFolders=["f1", "d"], Enabled=C19_ENABLED), "max_len": 40,
+                 "sample_paths": 300},
+                {"consts": base_consts(Values=["v3", "v5", "v6"], MetaFolders=["f1"], Enabled=C19_ENABLED),
+                 "max_len": 40, "sample_paths": 150}]
+    return account_check("C19", tier, replay, inst, rule, ACCOUNT_ASSUME, level="translation_validation",
+                         path_extra=extra)
